@@ -27,9 +27,10 @@ CLAIM = dict(
          "sm2.KeyExchange (NewKeyExchange/SetPeerParameters, InitKeyExchange, RepondKeyExchange, ConfirmResponder, ConfirmInitiator) "
          "and through ecdh (NewPrivateKey/GenerateKey, SM2MQV, SM2SharedKey, SM2ZA, plain ECDH) with identical scalars, and "
          "every value on the wire and every derived value (RA, RB, U/V, ZA, ZB, key, SB, SA) is compared with an independent "
-         "exact-integer reference of GB/T 32918.3; sessions with U = O must be refused by both parties; every single-byte "
-         "alteration and several semantically wrong confirmation values are presented to fresh protocol objects and must be "
-         "refused; invalid peer points (infinity, off-curve, other curve, coordinate >= p incl. non-canonical forms of valid "
+         "exact-integer reference of GB/T 32918.3; sessions with U = O must be refused by both parties; for all four (initiator, responder) genSignature "
+         "combinations the genuine confirmation values are accepted and every single-byte alteration and several semantically "
+         "wrong non-empty values are presented to fresh protocol objects and must be refused whatever the verifying party's own "
+         "flag is; invalid peer points (infinity, off-curve, other curve, coordinate >= p incl. non-canonical forms of valid "
          "points, negative/oversized integers, malformed encodings, all single-bit flips of valid encodings) are presented at "
          "each step where a peer value enters (static key, RA, RB, byte decoders) and must yield an error, never a key or a "
          "panic. Exploration over the listed generators, on the ADX, non-ADX and pure-Go back ends.",
